@@ -40,7 +40,7 @@ def judge(case, out):
     scripts = scripts.split(",")
     toks = out.split()
     fails = []
-    if "HANG" in toks or "PANIC" in toks or "BAD" in toks:
+    if "HANG" in toks or "PANIC" in toks or "BAD" in toks or "TIMEOUT" in toks:
         return ["hang/panic: %s" % out[-80:]]
     if "WRONGTHREAD" in toks:
         fails.append("a future was polled or dropped off the loop thread")
